@@ -461,6 +461,8 @@ impl GlobalsStatic {
     /// Get (or build, on first call) the [`Globals`] value.
     pub fn globals(&'static self) -> &'static Globals {
         self.cell.get_or_init(|| {
+            #[cfg(feature = "verif_hooks")]
+            let _no_preempt = crate::verif_hooks::NoPreempt::enter();
             GlobalsBuilder::new()
                 .with(self.init)
                 .build_named(GlobalFrozenHeapName { name: self.name })
